@@ -228,7 +228,7 @@ func writeShards(dir, prefix, typ, check string, n int, get func(int) string) []
 			parts = append(parts, get(i))
 		}
 		name := fmt.Sprintf("%s_%d.v", prefix, s)
-		body := "From G12 Require Import Check12.\nOpen Scope N_scope.\n" +
+		body := "From G12 Require Import Check12.\nOpen Scope N_scope.\n" + fr.CutBodyCoq() +
 			"Definition cases : list " + typ + " := " + coqfmt.List(typ, parts) + ".\n" +
 			"Definition R := Eval vm_compute in (map " + check + " cases).\n" +
 			"Definition M := Eval vm_compute in (bad_fst R).\nPrint M.\n" +
